@@ -77,6 +77,29 @@ def run(ctx: Ctx) -> None:
     r.check(ok, "PLRU.__init__", init.loc(), "PLRU.__init__ does not assert (associativity != 0 and associativity & "
             "(associativity - 1) == 0) before building the tree")
 
+    # the policy state is the order list / the tree bits and nothing else: a second mutable attribute (a remembered victim, a
+    # counter) is state the walks do not derive from the tree, so `victim = the leaf the tree bits lead to` no longer holds by construction
+    from ..common import attr_stores
+    r = ctx.rule("R10.state", "the only mutable state of a policy is its order list / tree array")
+    STATE = {"LRU": {"lru"}, "PLRU": {"tree_array"}}
+    n_w = 0
+    for cn, allowed in STATE.items():
+        c = m.cls(cn)
+        for name, f in sorted(c.methods.items()):
+            s0 = f.params[0] if f.params else "self"
+            for n in ast.walk(f.node):
+                tg = n.targets if isinstance(n, ast.Assign) else [n.target] if isinstance(n, (ast.AugAssign, ast.AnnAssign)) else []
+                for t in tg:
+                    base = t
+                    while isinstance(base, ast.Subscript):
+                        base = base.value
+                    if isinstance(base, ast.Attribute) and isinstance(base.value, ast.Name) and base.value.id == s0:
+                        n_w += 1
+                        ok = base.attr in allowed or name == "__init__"
+                        r.check(ok, f"{cn}.{name}|{base.attr}", f.loc(n), f"{cn}.{name} keeps state in `self.{base.attr}` besides {sorted(allowed)}: "
+                                "the victim / the ages must be read off the order list / tree bits when they are asked for")
+    if n_w < 3:
+        ctx.floor_misses.append("R10.state: policy state stores vanished")
     lru_rule(ctx)
     plru_rule(ctx)
 
